@@ -939,11 +939,12 @@ class _ExecutorManagerThread(threading.Thread):
         with self.processes_management_lock:
             mp.util.debug(f"joining {len(self.processes)} processes")
             n_joined_processes = 0
+            workers = list(self.processes.values())
             while True:
                 try:
                     pid, p = self.processes.popitem()
                     mp.util.debug(f"joining process {p.name} with pid {pid}")
-                    p.join()
+                    self._join_process(p, workers)
                     n_joined_processes += 1
                 except KeyError:
                     break
@@ -952,6 +953,25 @@ class _ExecutorManagerThread(threading.Thread):
                 "executor management thread clean shutdown of "
                 f"{n_joined_processes} workers"
             )
+
+    def _join_process(self, p, workers):
+        # Join a worker that was sent a sentinel. If one of the workers died
+        # abruptly (before or during the shutdown), the call queue and its
+        # locks may be left in a dirty state and the remaining workers could
+        # block forever without seeing their sentinel: terminate them
+        # forcibly, as done for a broken executor.
+        while p.is_alive():
+            abrupt_exit = self.executor_flags.broken is not None or any(
+                q.exitcode not in (None, 0) for q in workers
+            )
+            if abrupt_exit:
+                try:
+                    kill_process_tree(p)
+                except ProcessLookupError:  # pragma: no cover
+                    pass
+                break
+            wait([p.sentinel], timeout=0.01)
+        p.join()
 
     def get_n_children_alive(self):
         # This is an upper bound on the number of children alive.
